@@ -155,6 +155,73 @@ def run_batch(hbin, casefile, gomaxprocs, sched_seed, timeout=900):
     return rc, parse_runs(so), se
 
 
+FIT_DRIVER = os.path.join(vlib.HARNESS, "cmd", "c09", "simfinetune_fitness_test.go.txt")
+
+
+def build_fitness_driver(race=False):
+    """cmd/simfinetune is package main: our driver is compiled into it as a test file through a build
+    overlay (the repository is not touched)"""
+    os.makedirs(vlib.BIN, exist_ok=True)
+    out = os.path.join(vlib.BIN, "simfinetune-c09%s.test" % ("-race" if race else ""))
+    ov = os.path.join(vlib.BIN, "simfinetune-c09.overlay.json")
+    json.dump({"Replace": {os.path.join(vlib.REPO, "cmd", "simfinetune", "zz_verif_c09_test.go"): FIT_DRIVER}},
+              open(ov, "w"))
+    env = vlib.goenv()
+    cmd = ["go", "test", "-c", "-vet=off", "-tags", "verif", "-overlay", ov]
+    if race:
+        cmd.append("-race")
+        env["CGO_ENABLED"] = "1"
+    with vlib.Lock("go"):
+        if os.path.exists(out):
+            os.remove(out)
+        rc, so, se = vlib.run(cmd + ["-o", out, "./cmd/simfinetune"], cwd=vlib.REPO, env=env, timeout=900)
+    if rc != 0 or not os.path.exists(out):
+        raise vlib.BuildError("go test -c of cmd/simfinetune with the C09 driver failed:\n%s%s" % (so, se))
+    return out
+
+
+def run_fitness(tbin, spec, timeout=600):
+    """-> ([(W, i, fitness)], stderr+stdout text)"""
+    env = vlib.goenv()
+    env["VERIF_C09_FIT"] = spec
+    env["GOMAXPROCS"] = "16"
+    rc, so, se = vlib.run([tbin, "-test.run", "TestVerifC09Fitness", "-test.timeout", "%ds" % timeout],
+                          timeout=timeout + 30, env=env, cwd=vlib.scratch_dir("c09" + vlib._REPO_TAG))
+    vals = []
+    for l in so.splitlines():
+        m = re.match(r"F W=(-?\d+) i=(\d+) fitness=(\S+)", l)
+        if m:
+            vals.append((int(m.group(1)), int(m.group(2)), m.group(3)))
+    return vals, so + se
+
+
+def fitness_findings(spec, race_spec):
+    """simfinetune's FitnessFunction with 1 vs several workers -> (stats, violation dict or None)"""
+    vals, _ = run_fitness(build_fitness_driver(), spec)
+    st = {"fitness_evaluations": len(vals), "fitness_spec": spec}
+    if not vals:
+        return st, {"kind": "proof-or-correspondence-broken", "broken": ["simfinetune fitness driver printed nothing"],
+                    "no_input": True}
+    ref = [v for w, i, v in vals if w == 1]
+    refv = ref[0] if ref else vals[0][2]
+    bad = [(w, i, v) for w, i, v in vals if v != refv]
+    if bad:
+        return st, {"kind": "fitness-depends-on-workers", "replay_spec": spec,
+                    "what": "cmd/simfinetune FitnessFunction on the same candidate and records: fitness %s with 1 worker, "
+                            "%s with %d workers (evaluation %d); %d of %d evaluations differ" % (
+                                refv, bad[0][2], bad[0][0], bad[0][1], len(bad), len(vals)),
+                    "values": ["W=%d i=%d %s" % x for x in vals][:40]}
+    rvals, text = run_fitness(build_fitness_driver(race=True), race_spec)
+    blocks = races(text)
+    st["fitness_race_evaluations"] = len(rvals)
+    st["fitness_race_reports"] = len(blocks)
+    if blocks:
+        return st, {"kind": "data-race-simfinetune", "replay_spec": race_spec, "report": blocks[0][:6000],
+                    "reports_total": len(blocks),
+                    "what": "race detector on cmd/simfinetune FitnessFunction with several workers"}
+    return st, None
+
+
 GROWTH = []   # (which process, (case id, sizes before, sizes after)) collected by run_batch
 
 
@@ -329,6 +396,11 @@ def run(rep):
     stats["runs"] += st2["runs"]
     stats["distinct"] = stats.get("distinct", 0) + st2.get("distinct", 0)
 
+    # cmd/simfinetune: the fitness of a candidate must not depend on the number of concurrent workers
+    fit_spec = "2:%d:%d:1,4,8,16" % (150, 12 if thorough else 6)
+    fst, fit_violation = fitness_findings(fit_spec, "2:60:%d:4,8" % (6 if thorough else 3))
+    stats.update(fst)
+
     samples = [{"case": speclist[0], "reference_trace_head": refs[kvs(speclist[0].split())["id"]]["trace"][:3]},
                {"case": speclist[-3]}]
     rep.coverage.update({
@@ -346,6 +418,7 @@ def run(rep):
         "tree_configuration": cfg,
         "hook_present": hook,
         "opcode_state": [l.strip() for l in gen.splitlines() if l.strip().startswith("(\"")],
+        "simfinetune_fitness": {k: v for k, v in stats.items() if k.startswith("fitness")},
         "unmodelled": ["bonds / data movement in the Lean ISA (ring cases are compared Go-vs-Go only)",
                        "dynamic opcode families in the Lean ISA (Go-vs-Go only)",
                        "delay tables in the Lean ISA (delays=1 cases: Go-vs-Go + race detector); multi-valued (random) SimDelays",
@@ -385,6 +458,11 @@ def run(rep):
                        "events_total": len(GROWTH), "tree_configuration": cfg,
                        "replay": "python3 tools/check.py C09 --replay <this file>"})
         race_real = []   # the races on the same tables are the same defect
+    if fit_violation:
+        fv = dict(fit_violation)
+        noin = fv.pop("no_input", False)
+        fv.update({"property": PROP, "replay": "python3 tools/check.py C09 --replay <this file>"})
+        rep.violation(fv, no_failing_input=noin)
     if real:
         # smallest case first; try to reproduce with the case alone in a batch (seq + conc copies of itself)
         real.sort(key=lambda x: (len(x["case"]), x["tick"]))
@@ -443,6 +521,22 @@ def run(rep):
 def replay(rep, path):
     hbin = vlib.go_build("c09")
     obj = json.load(open(path))
+    if obj.get("kind") in ("fitness-depends-on-workers", "data-race-simfinetune"):
+        v = None
+        for attempt in range(4):
+            if obj["kind"] == "fitness-depends-on-workers":
+                st, v = fitness_findings(obj["replay_spec"], "2:60:3:4,8")
+            else:
+                st, v = fitness_findings("2:10:1:1", obj["replay_spec"])
+            if v:
+                break
+        rep.coverage.update({"evaluations": st.get("fitness_evaluations", 0) + st.get("fitness_race_evaluations", 0),
+                             "distinct_nontrivial": 2, "rule": "replay of " + path, "samples": [obj["replay_spec"]]})
+        if v:
+            v.pop("no_input", None)
+            v["property"] = PROP
+            rep.violation(v)
+        return
     if obj.get("kind") == "global-state-grew":
         r = run_alone(hbin, obj["case"])
         rep.coverage.update({"evaluations": 1, "distinct_nontrivial": 2, "rule": "replay of " + path,
